@@ -670,29 +670,62 @@ def r_split(ctx, model):
                nontrivial_key=("split", what))
 
 
-def r_order(ctx, model):
-    ctx.rule("R-order: get_iso_loading_and_pressure_ordered reads loading and pressure with the same branch and "
-             "reverses both arrays or neither")
+def r_order(ctx, model, prop="C03"):
+    """get_iso_loading_and_pressure_ordered, interpreted on a stub isotherm (any stored pressure mode) whose accessors record
+    their keyword arguments and return tagged arrays"""
+    ctx.rule("R-order: get_iso_loading_and_pressure_ordered reads loading and pressure through the accessors with the caller's "
+             "branch and ALL requested unit arguments (whatever the stored mode), returns (pressure, loading), and reverses both "
+             "arrays - or neither - on the desorption branch; a missing branch is refused")
+    from ..absint import Obj, Term
     fi = model.func("pygaps.utilities.pygaps_utilities.get_iso_loading_and_pressure_ordered")
-    rev = {}
-    for st in ast.walk(fi.node):
-        if isinstance(st, ast.Assign) and isinstance(st.value, ast.Subscript) and isinstance(st.value.slice, ast.Slice):
-            sl = st.value.slice
-            if sl.step is not None and ast.unparse(sl.step) == "-1" and sl.lower is None and sl.upper is None:
-                rev[ast.unparse(st.targets[0])] = ast.unparse(st.value.value)
-    ok = rev == {"loading": "loading", "pressure": "pressure"}
-    ctx.ob(ok, Finding("C03.R-order", fi.where, "ordered|reverse-both",
-                       f"on the desorption branch the arrays reversed are {rev}; both loading and pressure must be reversed"),
-           nontrivial_key=("order", "reverse"))
-    calls = [n for n in ast.walk(fi.node) if isinstance(n, ast.Call) and isinstance(n.func, ast.Attribute)
-             and n.func.attr in ("loading", "pressure")]
-    okb = len(calls) == 2 and all(any(k.arg == "branch" and ast.unparse(k.value) == "branch" for k in c.keywords) for c in calls)
-    ctx.ob(okb, Finding("C03.R-order", fi.where, "ordered|branch-threaded",
-                        "loading and pressure must both be read with branch=branch"), nontrivial_key=("order", "branch"))
-    ret = [n for n in ast.walk(fi.node) if isinstance(n, ast.Return)]
-    okr = len(ret) == 1 and ast.unparse(ret[0].value) in ("(pressure, loading)", "pressure, loading")
-    ctx.ob(okr, Finding("C03.R-order", fi.where, "ordered|return-order", "must return (pressure, loading)"),
-           nontrivial_key=("order", "return"))
+    lu = {"loading_basis": "molar", "loading_unit": "mmol", "material_basis": "mass", "material_unit": "g"}
+    pu = {"pressure_mode": "relative", "pressure_unit": None}
+    n = 0
+    for stored_mode in ("absolute", "relative", "relative%"):
+        for branch in ("ads", "des"):
+            I = make_interp(model)
+            calls = []
+            for acc in ("loading", "pressure"):
+                I.libmeth[("IsoStub", acc)] = (lambda acc: lambda I, v, a, k, n_: (calls.append((acc, list(a), dict(k))), Term(acc + "_data"))[1])(acc)
+            iso = Obj(kind="IsoStub", label="iso", attrs={"pressure_mode": stored_mode, "pressure_unit": "bar" if stored_mode == "absolute" else None,
+                                                          "loading_basis": "molar", "loading_unit": "mmol", "material_basis": "mass", "material_unit": "g"})
+            outs = I.explore(lambda I: (calls.clear(), I.call_func(fi, [iso, branch, dict(lu), dict(pu)], {}, None))[1])
+            for oc in outs:
+                n += 1
+                key = f"stored={stored_mode}|branch={branch}"
+                if oc.kind != "ok":
+                    ctx.ob(False, Finding(f"{prop}.R-order", fi.where, f"ordered|{key}|raises:{oc.exc.name}", f"{key}: raises {oc.exc}"))
+                    continue
+                by = {c[0]: c for c in calls}
+                okc = set(by) == {"loading", "pressure"} and all(c[2].get("branch") == branch for c in calls) \
+                    and all(by["loading"][2].get(k_) == v for k_, v in lu.items()) and all(by["pressure"][2].get(k_) == v for k_, v in pu.items()) \
+                    and "pressure_mode" in by["pressure"][2]
+                ctx.ob(okc, Finding(f"{prop}.R-order", fi.where, f"ordered|{key}|accessor-arguments",
+                                    f"{key}: accessor calls {[(c[0], c[2]) for c in calls]}; required loading(branch, **{lu}) and "
+                                    f"pressure(branch, **{pu}) - e.g. data stored in relative% must still be converted to the requested mode"),
+                       nontrivial_key=("order", key, "args"))
+                val = oc.value
+                want_p, want_l = Term("pressure_data"), Term("loading_data")
+                if branch == "des":
+                    rev = lambda t: Term("getitem", [t, slice(None, None, -1)])
+                    both = isinstance(val, tuple) and len(val) == 2 and val[0] == rev(want_p) and val[1] == rev(want_l)
+                    neither = isinstance(val, tuple) and len(val) == 2 and val[0] == want_p and val[1] == want_l
+                    okv = both or neither
+                else:
+                    okv = isinstance(val, tuple) and len(val) == 2 and val[0] == want_p and val[1] == want_l
+                ctx.ob(okv, Finding(f"{prop}.R-order", fi.where, f"ordered|{key}|result",
+                                    f"{key}: returns {val!r}; required (pressure, loading) from the accessors" +
+                                    (", both reversed or both as read" if branch == "des" else "")),
+                       nontrivial_key=("order", key, "result"))
+    # a branch the isotherm does not have: loading() returns None -> ParameterError
+    I = make_interp(model)
+    I.libmeth[("IsoStub", "loading")] = lambda I, v, a, k, n_: None
+    I.libmeth[("IsoStub", "pressure")] = lambda I, v, a, k, n_: None
+    outs = I.explore(lambda I: I.call_func(fi, [Obj(kind="IsoStub", label="iso", attrs={"pressure_mode": "absolute"}), "des", dict(lu), dict(pu)], {}, None))
+    ctx.ob(all(o.kind == "raise" and o.exc.is_a("ParameterError") for o in outs),
+           Finding(f"{prop}.R-order", fi.where, "ordered|missing-branch", "a branch without data must be refused with ParameterError"),
+           nontrivial_key=("order", "missing"))
+    ctx.floor("ordered-read cases", n, 6)
 
 
 def _worker(args):
